@@ -208,6 +208,106 @@ pub proof fn lemma_pos_avail_eq(s: Seq<AcquisitionLot>, date: int)
     rsum_nonneg(s, f_avail_on(date));
 }
 
+
+// ---------- same-day lots: the lots of one date that still have shares, in ledger order ----------
+pub open spec fn lot_matching(l: AcquisitionLot, d: int) -> bool { l.date.d() == d && lot_avail(l) > 0real }
+pub open spec fn mi(s: Seq<AcquisitionLot>, d: int) -> Seq<int>
+    decreases s.len()
+{
+    if s.len() == 0 { Seq::<int>::empty() } else {
+        let r = mi(s.drop_last(), d);
+        if lot_matching(s.last(), d) { r.push(s.len() - 1) } else { r }
+    }
+}
+pub proof fn lemma_mi(s: Seq<AcquisitionLot>, d: int)
+    ensures
+        forall|j: int| 0 <= j < mi(s, d).len() ==> 0 <= #[trigger] mi(s, d)[j] < s.len() && lot_matching(s[mi(s, d)[j]], d),
+        forall|j1: int, j2: int| 0 <= j1 < j2 < mi(s, d).len() ==> #[trigger] mi(s, d)[j1] < #[trigger] mi(s, d)[j2],
+        forall|k: int| 0 <= k < s.len() && lot_matching(#[trigger] s[k], d) ==> exists|j: int| 0 <= j < mi(s, d).len() && mi(s, d)[j] == k,
+    decreases s.len()
+{
+    if s.len() > 0 {
+        let p = s.drop_last();
+        lemma_mi(p, d);
+        let r = mi(p, d);
+        assert forall|k: int| 0 <= k < s.len() && lot_matching(#[trigger] s[k], d) implies exists|j: int| 0 <= j < mi(s, d).len() && mi(s, d)[j] == k by {
+            if k < s.len() - 1 {
+                assert(p[k] == s[k]);
+                let j = choose|j: int| 0 <= j < r.len() && r[j] == k;
+                assert(mi(s, d)[j] == k);
+            } else {
+                assert(mi(s, d)[r.len() as int] == k);
+            }
+        }
+        assert forall|j: int| 0 <= j < mi(s, d).len() implies 0 <= #[trigger] mi(s, d)[j] < s.len() && lot_matching(s[mi(s, d)[j]], d) by {
+            if j < r.len() { assert(p[r[j]] == s[r[j]]); }
+        }
+    }
+}
+pub proof fn lemma_mi_take_step(s: Seq<AcquisitionLot>, i: int, d: int)
+    requires 0 <= i < s.len()
+    ensures mi(s.take(i + 1), d) == (if lot_matching(s[i], d) { mi(s.take(i), d).push(i) } else { mi(s.take(i), d) })
+{
+    assert(s.take(i + 1).drop_last() =~= s.take(i));
+    assert(s.take(i + 1).last() == s[i]);
+}
+/// (index, available) pairs as collected by the same-day matcher
+pub open spec fn f_p1() -> spec_fn((usize, Decimal)) -> real { |p: (usize, Decimal)| p.1.v() }
+pub open spec fn lod_idx(lod: Seq<(usize, Decimal)>) -> Seq<int> { lod.map(|j: int, p: (usize, Decimal)| p.0 as int) }
+
+
+// ---------- transactions ----------
+pub open spec fn is_sell(tx: GbpTransaction) -> bool { tx.operation is Sell }
+pub open spec fn is_buy(tx: GbpTransaction) -> bool { tx.operation is Buy }
+pub open spec fn sell_qty(tx: GbpTransaction) -> real { tx.operation->Sell_amount.v() }
+pub open spec fn sell_price(tx: GbpTransaction) -> real { tx.operation->Sell_price.v() }
+pub open spec fn sell_fees(tx: GbpTransaction) -> real { tx.operation->Sell_fees.v() }
+pub open spec fn buy_qty(tx: GbpTransaction) -> real { tx.operation->Buy_amount.v() }
+pub open spec fn sorted_by_date(txs: Seq<GbpTransaction>) -> bool {
+    forall|i: int, j: int| 0 <= i <= j < txs.len() ==> txs[i].date.d() <= txs[j].date.d()
+}
+/// shares of `ticker` sold on `date` (all SELL lines of that day)
+pub open spec fn f_sell_on(date: int, ticker: Seq<char>) -> spec_fn(GbpTransaction) -> real {
+    |tx: GbpTransaction| if tx.date.d() == date && tx.ticker@ == ticker && tx.operation is Sell { tx.operation->Sell_amount.v() } else { 0real }
+}
+pub open spec fn f_buy_on(date: int, ticker: Seq<char>) -> spec_fn(GbpTransaction) -> real {
+    |tx: GbpTransaction| if tx.date.d() == date && tx.ticker@ == ticker && tx.operation is Buy { tx.operation->Buy_amount.v() } else { 0real }
+}
+pub open spec fn day_sells(txs: Seq<GbpTransaction>, date: int, ticker: Seq<char>) -> real { rsum(txs, f_sell_on(date, ticker)) }
+pub open spec fn day_buys(txs: Seq<GbpTransaction>, date: int, ticker: Seq<char>) -> real { rsum(txs, f_buy_on(date, ticker)) }
+/// s106A window: acquisition on day x is matched with a disposal on day d iff 0 < x - d <= 30
+pub open spec fn in_bnb_window(d: int, x: int) -> bool { 0 < x - d <= 30 }
+/// effect of a SPLIT / UNSPLIT line on a share count (C10): SPLIT r multiplies, UNSPLIT r divides
+pub open spec fn ratio_effect(tx: GbpTransaction, c: real) -> real {
+    match tx.operation {
+        Operation::Split { ratio } => c * ratio.v(),
+        Operation::Unsplit { ratio } => if ratio.v() != 0real { c / ratio.v() } else { c },
+        _ => c,
+    }
+}
+pub open spec fn splits_nonzero(txs: Seq<GbpTransaction>) -> bool {
+    forall|i: int| 0 <= i < txs.len() ==> ((#[trigger] txs[i]).operation is Split ==> txs[i].operation->Split_ratio.v() != 0real)
+}
+pub open spec fn fc_get(fc: Map<usize, Decimal>, i: usize) -> real { if fc.contains_key(i) { fc[i].v() } else { 0real } }
+
+// ---------- legs ----------
+/// C04.pro_rata / C04.leg_gain: figures of one leg of q shares out of a sale of big_q
+pub open spec fn leg_figures(m: MatchResult, tx: GbpTransaction, q: real, big_q: real, price: real, fees: real) -> bool {
+    &&& m.disposal_date == tx.date
+    &&& m.disposal_ticker@ == tx.ticker@
+    &&& m.match_detail.quantity.v() == q
+    &&& m.gross_proceeds.v() == q * price
+    &&& m.proceeds.v() == q * price - fees * (q / big_q)
+    &&& m.match_detail.gain_or_loss.v() == m.proceeds.v() - m.match_detail.allowable_cost.v()
+}
+pub open spec fn f_leg_qty() -> spec_fn(MatchResult) -> real { |m: MatchResult| m.match_detail.quantity.v() }
+pub open spec fn f_leg_cost() -> spec_fn(MatchResult) -> real { |m: MatchResult| m.match_detail.allowable_cost.v() }
+pub open spec fn rule_rank(r: MatchRule) -> int { match r { MatchRule::SameDay => 0, MatchRule::BedAndBreakfast => 1, MatchRule::Section104 => 2 } }
+/// unit cost of a BUY line with its capital-return/accumulation offset: the same formula as lot_unit
+pub open spec fn buy_unit(amount: real, price: real, fees: real, offset: real) -> real {
+    if amount != 0real { (amount * price + fees + offset) / amount } else { 0real }
+}
+
 // ---------- proceeds ----------
 /// C04.pro_rata: the share of the day's sale attributed to a leg of q out of Q shares
 pub open spec fn pro_rata_gross(q: real, price: real) -> real { q * price }
